@@ -337,6 +337,7 @@ struct Uses {
     methods: BTreeSet<String>,
     macros: BTreeSet<String>,
     uses: BTreeSet<String>,
+    bindings: BTreeSet<String>,
     unsafe_blocks: usize,
 }
 impl<'ast> Visit<'ast> for Uses {
@@ -357,6 +358,16 @@ impl<'ast> Visit<'ast> for Uses {
             if u.leading_colon.is_some() { "::" } else { "" },
             flat(&u.tree)
         ));
+    }
+    fn visit_pat_ident(&mut self, p: &'ast PatIdent) {
+        self.bindings.insert(p.ident.to_string());
+        visit::visit_pat_ident(self, p);
+    }
+    fn visit_generic_param(&mut self, g: &'ast GenericParam) {
+        if let GenericParam::Type(t) = g {
+            self.bindings.insert(t.ident.to_string());
+        }
+        visit::visit_generic_param(self, g);
     }
     fn visit_expr_unsafe(&mut self, u: &'ast ExprUnsafe) {
         self.unsafe_blocks += 1;
@@ -554,6 +565,7 @@ fn extract_fn(
         "methods": uses.methods,
         "macros": uses.macros,
         "uses": uses.uses,
+        "bindings": uses.bindings,
     })
 }
 
